@@ -423,6 +423,10 @@ func VerifHostLevel(r *NetworkRule) bool {
 }
 
 // VerifHostRule: a hosts-file rule with nNames names of one symbolic letter pair and an IPv4 or IPv6 address.
+// VerifHostAlphabet / VerifHostNameLen: alphabet and length of the names of host rules (set by the harness).
+var VerifHostAlphabet = "zq"
+var VerifHostNameLen = 2
+
 func VerifHostRule(p string, nNames int) *HostRule {
 	h := &HostRule{RuleText: p, FilterListID: 1}
 	// address family: IPv4, IPv6, or an IPv4-mapped IPv6 address (which is an IPv6 address)
@@ -439,7 +443,7 @@ func VerifHostRule(p string, nNames int) *HostRule {
 		text = "::ffff:1.2.3.4"
 	}
 	for i := 0; i < nNames; i++ {
-		n := verifString(vn(p+".name", i, ""), 2, "zq")
+		n := verifString(vn(p+".name", i, ""), VerifHostNameLen, VerifHostAlphabet)
 		h.Hostnames = append(h.Hostnames, n)
 		text += " " + n
 	}
